@@ -38,17 +38,20 @@ KINDS = {
 THEOREM = {"handover-order": "Asynkit.C12.handover_most_urgent / waiter_key_inv_partial",
            "handover-order-after-giveup": "Asynkit.C12.handover_most_urgent / waiter_key_inv_partial"}
 NONTRIVIAL = {"handover-contended", "handover-decided-by-inherited-priority", "handover-tie",
-              "handover-by-giveup", "rekeyed-while-queued"}
+              "handover-by-giveup", "rekeyed-while-queued", "handover-inherited-through-chain-2",
+              "handover-inherited-through-chain-3"}
 
 
 def gen(rng, n):
     out = []
     for _ in range(n):
         g = rng.random()
-        if g < 0.45:
+        if g < 0.40:
             out.append(S.gen_case(rng, "C12"))
-        elif g < 0.85:
+        elif g < 0.70:
             out.append(S.gen_inherit_case(rng, "C12"))
+        elif g < 0.90:
+            out.append(S.gen_chain_contended_case(rng, "C12"))
         else:
             out.append(S.gen_chain_case(rng))
     return out
